@@ -46,6 +46,8 @@ type Cluster struct {
 	Nodes   []*Node
 	Net     *sim.Net
 	Catalog []catalog.Op // catalogue log replayed on every (re)start
+	// Unwired nodes get no in-memory data client on their peers (peers would have to dial them).
+	Unwired map[int]bool
 	// OnCrash is called when a node's partition log store fires its crash plan.
 	OnCrash func(n *Node)
 
@@ -117,6 +119,9 @@ func (c *Cluster) Start(i int) {
 	for slot := range c.datasetSlots() {
 		if ds, err := r.DM.Get(catalog.DatasetID(slot)); err == nil {
 			for _, p := range c.Nodes {
+				if c.Unwired[p.I] && p.Id != n.Id {
+					continue
+				}
 				ds.VerifSetClients(p.Id, nil, &dataShim{c: c, to: p})
 			}
 		}
@@ -157,6 +162,16 @@ func (c *Cluster) crashed(n *Node, inc int) {
 		g.VerifKill()
 	}
 	r.Alloc.Stop()
+}
+
+// Leave: node i is dead and has been removed from the cluster: the other nodes forget its address.
+func (c *Cluster) Leave(i int) {
+	c.Kill(i)
+	for j, n := range c.Nodes {
+		if j != i && c.Up(j) {
+			n.R.Conn.RemoveNode(c.Nodes[i].Id)
+		}
+	}
 }
 
 // Kill crashes node i right now (between durable writes).
